@@ -254,7 +254,10 @@ Lemma gstep_inv g m o :
   exists m', mon_run m (fst (gstep g o)) = Some m' /\ srv_inv (g_srv (snd (gstep g o))) m'.
 Proof.
   intros Hwf Hinv. unfold gstep. destruct (s_dead (g_srv g)).
-  { exists m. split; [reflexivity|exact Hinv]. }
+  { destruct o as [id|n| |id|pid]; try (exists m; split; [reflexivity|exact Hinv]).
+    destruct (s_err (g_srv g)) as [e|]; [|exists m; split; [reflexivity|exact Hinv]].
+    assert (Eg : shutdown_error_guard = true) by reflexivity. rewrite Eg.
+    exists m. split; [reflexivity|exact Hinv]. }
   destruct o as [id|n| |id|pid]; cbn [wf_gop] in Hwf.
   - (* Arrive *)
     cbn [fst snd g_srv mon_run mon_step]. eexists. split; [reflexivity|].
